@@ -15,10 +15,18 @@ from .model import AnalysisError
 
 
 def _apply(entry: dict, repo: str) -> str | None:
-    """Returns scratch repo path or None when an anchor text is missing."""
+    """Returns scratch repo path or None when an anchor text is missing / the diff does not apply."""
     tmp = tempfile.mkdtemp(prefix="repid-sa-")
     shutil.copytree(os.path.join(repo, "repid"), os.path.join(tmp, "repid"),
                     ignore=shutil.ignore_patterns("__pycache__"))
+    if entry.get("diff"):
+        import subprocess
+
+        r = subprocess.run(["patch", "-p1", "-s", "-f", "-F0", "-d", tmp, "-i", entry["diff"]], capture_output=True, text=True)
+        if r.returncode != 0:
+            shutil.rmtree(tmp, ignore_errors=True)
+            return None
+        return tmp
     for path, old, new in entry["edits"]:
         p = os.path.join(tmp, path)
         try:
@@ -42,7 +50,7 @@ def run_entry(args) -> dict:
 
     tmp = _apply(entry, repo)
     if tmp is None:
-        return {"id": entry["id"], "status": "skipped", "why": "anchor text not present in current tree"}
+        return {"id": entry["id"], "status": "skipped", "why": "anchor text not present in current tree / diff does not apply"}
     try:
         try:
             ctx = run_rules(prop, "quick", tmp)
@@ -67,8 +75,17 @@ def run_entry(args) -> dict:
 
 def run_for(prop: str, repo: str, jobs: int, main_clean: bool):
     from .corpus import CORPUS
+    from .engine import VERIF
+    import glob
+    import json
 
     entries = [e for e in CORPUS if prop in e["props"]]
+    # independently produced seeded changes of this property (must fire) and behaviour-preserving refactorings (must stay silent)
+    for d in sorted(glob.glob(os.path.join(VERIF, "seeded", f"{prop}-*"))):
+        if os.path.exists(os.path.join(d, "patch.diff")):
+            entries.append({"id": "seeded/" + os.path.basename(d), "props": [prop], "expect": "fire", "rule": None, "edits": [], "diff": os.path.join(d, "patch.diff")})
+    for d in sorted(glob.glob(os.path.join(VERIF, "refactors", "*.diff"))):
+        entries.append({"id": "refactor/" + os.path.basename(d)[:-5], "props": [prop], "expect": "silent", "edits": [], "diff": d})
     if not entries:
         return {"selftest": {"entries": 0}}, []
     if not main_clean:
